@@ -198,8 +198,8 @@ func roundTrip(c *mcx.Ctx, cs Case) (obs, sig string) {
 
 type corruption struct {
 	Name   string
-	Expect string // refuse | accept | dontcare
-	Class  string // for signatures
+	Expect string                   // refuse | accept | dontcare
+	Class  string                   // for signatures
 	Apply  func(doc map[string]any) // on a fresh parse of the document (outer document; payload handled inside)
 }
 
@@ -477,6 +477,19 @@ func corruptions(raw []byte, dsse bool, isLayout bool) []corruption {
 			v := v
 			out = append(out, corruption{"payload:" + v.name, "refuse", "payload-content|" + v.name, func(d map[string]any) { d["payload"] = v.val }})
 		}
+		// the payload is one JSON document: a complete, valid one followed by anything else is not
+		for _, v := range []struct{ name, tail string }{{"second-object", "{}"}, {"itself-again", "\x00SELF"}, {"closing-bracket", "]"}, {"text", " trailing text"},
+			{"truncated-second-document", "{\"_type\": \"link\", "}, {"newline-and-null", "\nnull"}} {
+			v := v
+			out = append(out, corruption{"payload:followed-by-" + v.name, "refuse", "payload-followed-by|" + v.name, func(d map[string]any) {
+				b, _ := base64.StdEncoding.DecodeString(d["payload"].(string))
+				tail := v.tail
+				if tail == "\x00SELF" {
+					tail = string(b)
+				}
+				d["payload"] = base64.StdEncoding.EncodeToString(append(append([]byte{}, b...), tail...))
+			}})
+		}
 	}
 	return out
 }
@@ -650,6 +663,16 @@ func linkViolations() []violation {
 		{"material-digest-not-hex", lk(func(l *intoto.Link) { l.Materials["src/a.c"]["sha256"] = "xyz" })},
 		{"material-digest-empty", lk(func(l *intoto.Link) { l.Materials["src/a.c"]["sha256"] = "" })},
 		{"product-digest-not-hex", lk(func(l *intoto.Link) { l.Products["out/a.o"]["sha256"] = "0g" })},
+		// one artifact with two digests, one of them not hexadecimal (either of the two)
+		{"material-second-digest-fine-first-not-hex", lk(func(l *intoto.Link) {
+			l.Materials["src/a.c"] = intoto.HashObj{"sha256": "xyz", "sha512": gen.H(5)}
+		})},
+		{"material-first-digest-fine-second-not-hex", lk(func(l *intoto.Link) {
+			l.Materials["src/a.c"] = intoto.HashObj{"sha256": gen.H(5), "sha512": "xyz"}
+		})},
+		{"product-second-digest-fine-first-not-hex", lk(func(l *intoto.Link) {
+			l.Products["out/a.o"] = intoto.HashObj{"md5": "0g", "sha256": gen.H(6), "sha512": gen.H(7)}
+		})},
 	}
 	return append(out, sigViolations()...)
 }
